@@ -93,7 +93,11 @@ func findModuleAndIsExternal(y Definition, prefix string) (*Module, bool, error)
 	sub, found := m.imports[prefix]
 	if !found {
 		if m.belongsTo != nil && m.belongsTo.prefix == prefix {
-			return m.parent.(*Module), true, nil
+			// only a submodule that was loaded through an include has a module it belongs to
+			if parent, valid := m.parent.(*Module); valid && parent != nil {
+				return parent, true, nil
+			}
+			return nil, true, errors.New(m.Ident() + " - belongs-to without a module to belong to, prefix " + prefix)
 		}
 		return nil, true, errors.New("module not found " + prefix)
 	}
